@@ -48,7 +48,8 @@ def generic_replay(mod, path: str) -> int:
     if r is None:
         print(f'replay: {ob_id} passes on the current tree')
         return 0
-    print(f'VIOLATION property={doc["property"]} replay={path} obligation={ob_id} key={r[0]}')
+    tail = '' if doc.get('native_failing_input', True) in (True, 'True') else ' no-failing-input-found'
+    print(f'VIOLATION property={doc["property"]} replay={path} obligation={ob_id} key={r[0]}{tail}')
     print('  ' + r[1][:600])
     return 1
 
